@@ -49,6 +49,21 @@ CHECKS = {
    text="For ~190 received sets per run (K=10,26 in quick) the decoder's verdict after every delivery is certified: never an answer for a rank-deficient set (certificate would be sat), never 'not yet' for a full-rank set (kernel search finds none => violation), including the fall-back from the no-HDPC fast path and sets with fewer than K symbols.",
    note="Sets are a generated family; only each set's rank question is settled exactly. Trusted: vlib/rfc.py matrix construction, cvc5-FF, the checker's own evaluation of kernel witnesses.",
    design="§4 C02"),
+ "C09": dict(level="model_checking", engine="E1 kani/cbmc",
+   technique="Kani (CBMC) harnesses over the real SymbolSlab, perform_op and enc_into: arbitrary slab contents, arbitrary permutation as reorder map, symbolic indices/op kind, frame condition and byte-wise semantics asserted per byte; enc_into checked on a one-hot slab against an Enc[] transcription",
+   text="The units that make the code linear and column-wise are decided: (i) get/get_mut/get_pair_mut address exactly data[phys*T..phys*T+T], pairs are disjoint and in bounds, equal or out-of-range indices panic; (ii) perform_op changes only the destination symbol and applies xor / c* / xor-c* byte by byte (symbolic op kind, indices, data; T in {1,2,3,9}); Reorder is a pure relabelling; (iv) enc_into forms the GF(2) combination Enc[] prescribes for every in-range tuple independently of the data. (iii) is C11. The lift from T=1 certificates (C04/C06/C01) to every T is the paper composition of these.",
+   note="No direct whole-encoder comparison of T-byte packets with T one-byte encodings (plan replay is out of CBMC's reach); slab shapes are a small listed set; multiplying ops with a fixed scalar for T>1 (table cost).",
+   design="§4 C09"),
+ "C11": dict(level="model_checking", engine="E1 kani/cbmc with intrinsic stubs",
+   technique="one Kani harness per kernel and buffer length over the real octets.rs kernels (AVX-512, AVX2, SSSE3, portable; binary FMA), symbolic contents/scalars/bit vectors, exact heap allocations; pshufb/bextr/maskz-mov modelled by stubs validated against the host CPU; result compared with the polynomial definition of GF(256)",
+   text="For each of the 14 x86-64 kernels and the 4 public entry points (no_std dispatch): every byte of the result equals the element-wise field operation for all contents; add and binary-FMA kernels for all 256 scalars at every listed length (0..65 boundary set, thorough 0..136); table kernels (mul, fma) at the boundary lengths of their vector width with a fixed scalar plus 16-value scalar slices at 'one vector + tail' (thorough: all 16 slices = all scalars, lengths 0..V+1, 2V-1..2V+1).",
+   note="Trusted: the stub models of _mm*_shuffle_epi8, _bextr2_u32, _mm512_maskz_mov_epi8; Kani has no alignment faults (unaligned loads are used by the kernels); run-time dispatch is not executed; NEON kernels are not compiled here; the lengths x scalars product of table kernels is covered per dimension, not jointly.",
+   design="§4 C11"),
+ "C12": dict(level="model_checking", engine="E1 kani/cbmc",
+   technique="the C11 kernel harnesses on exact-size heap operands (CBMC pointer checks flag any byte outside a slice), plus harnesses for SymbolSlab::get_pair_mut (raw-pointer pair: address, bounds, disjointness), util::get_both_ranges/get_both_indices and the unchecked table look-ups of Octet::mul/fma",
+   text="Within the listed lengths/shapes no kernel, tail loop, unchecked look-up or paired borrow reads or writes outside its operands or hands out overlapping mutable access: CBMC's object-bounds/dead-object/unaligned-access checks pass for symbolic contents, indices and permutations, in both debug-assertion settings for the util/octet units.",
+   note="Kani does not check aliasing models; whole workloads and lengths above the bounds are outside; a failing pointer check cannot be confirmed natively and is reported on Kani's memory model.",
+   design="§4 C12"),
 }
 
 NOT_APPLICABLE = {
